@@ -58,13 +58,50 @@ def corpus():
         {'app': {'fangs': [], 'items': [R('/abc/def', 1), R('/abc/ghi', 3), R('/:p/xyz', 2)]}, 'reqs': [q('GET', '/abc/xyz'), q('GET', '/abc/ghi')]},
         {'app': {'fangs': [], 'items': [R('/api/v1', 1), R('/api/v2', 3), R('/:p', 2)]}, 'reqs': [q('GET', '/api'), q('GET', '/apj')]},
         {'app': {'fangs': [], 'items': [{'mount': '/api', 'app': {'fangs': [], 'items': [R('/x', 1)]}}, R('/:p', 2, ('PUT',))]}, 'reqs': [q('PUT', '/api'), q('PUT', '/apj'), q('GET', '/api/x')]},
+        # a static branch that captures a param and then leads nowhere, beside a param branch that matches: whichever way the search handles the dead end,
+        # the params a handler sees are the segments at the param positions of ITS route (a search that goes back must forget what the abandoned branch captured)
+        {'app': {'fangs': [], 'items': [R('/users/:id/posts', 1), R('/:tenant/:name/profile', 2)]}, 'reqs': [q('GET', '/users/alice/profile'), q('GET', '/users/alice/posts'), q('GET', '/acme/bob/profile')]},
+        {'app': {'fangs': [], 'items': [R('/a/:x/b/:y/c', 1), R('/a/:x/:z/d', 2), R('/:p/:q/b/e/f', 3)]}, 'reqs': [q('GET', '/a/1/b/2/d'), q('GET', '/a/1/b/e/f'), q('GET', '/a/1/b/d'), q('GET', '/a/1/b/2/c')]},
     ]
     return [{'case': dict(c, app2=c['app'], stop=None)} for c in cases]
+
+
+def dead_end_app(rng):
+    """a static branch that captures params and ends in a literal, beside a param branch of the same depth ending in another literal (and requests that cross over)"""
+    lit = lambda: rng.choice(['users', 'a', 'api', 'v1', 'x-y', 'posts', 'profile', 'b'])
+    depth = rng.choice([2, 3, 4])
+    first = lit()
+    r1 = ['/' + first] + ['/:p%d' % i if rng.random() < 0.6 else '/' + lit() for i in range(depth - 1)] + ['/' + rng.choice(['end1', 'posts'])]
+    r2 = ['/:t'] + ['/:q%d' % i if rng.random() < 0.5 else (r1[i + 1] if not r1[i + 1].startswith('/:') else '/' + lit()) for i in range(depth - 1)] + ['/' + rng.choice(['end2', 'profile'])]
+    def cap(r):          # the framework stores the first two params; keep routes within what handlers can declare
+        k = 0; out = []
+        for s_ in r:
+            if s_.startswith('/:'):
+                k += 1
+                if k > 2: s_ = '/' + lit()
+            out.append(s_)
+        return ''.join(out)
+    R = lambda route, h: {'route': route, 'methods': ['GET'], 'h': h, 'local': []}
+    items = [R(cap(r1), 1), R(cap(r2), 2)]
+    if rng.random() < 0.5: items.append(R('/' + first + '/' + lit() + '/zz', 3))
+    rng.shuffle(items)
+    return {'fangs': [], 'items': items}
 
 
 def generate(rng, tier):
     n = 250 if tier == 'quick' else 8000
     out = []
+    for _ in range(n // 10):
+        app = dead_end_app(rng)
+        if len({it['route'] for it in app['items']}) != len(app['items']): continue
+        c = mk(rng, app, 8)
+        conc = lambda route: [seg if not seg.startswith(':') else rng.choice(['alice', '7', 'x', 'bob']) for seg in route.strip('/').split('/')]
+        rs = [it['route'] for it in app['items']]
+        for a in rs:          # cross-overs: the body of one route with the last literal of another
+            for b in rs:
+                if a != b and len(conc(a)) == len(conc(b)):
+                    c['case']['reqs'].append({'m': 'GET', 'p': ('/' + '/'.join(conc(a)[:-1] + conc(b)[-1:])).encode().hex()})
+        out.append(c)
     for _ in range(n):
         ids = appgen.Ids()
         app = appgen.gen_app(rng, ids, fangs=rng.random() < 0.5, local=False, free=rng.random() < 0.5, nparams_left=rng.choice([2, 2, 2, 3, 4, 5]))          # a route may hold any number of params (mount prefixes included); the framework stores the first two
